@@ -27,7 +27,7 @@ TITLES = {
     "W": ["~W", "~Well", "~WELL INFORMATION BLOCK", "~Well ------", "~w", "~well information", "~wELL"],
     "C": ["~C", "~Curves", "~CURVE INFORMATION", "~Curve Information ----", "~c", "~curve information", "~cURVES"],
     "P": ["~P", "~Params", "~PARAMETER INFORMATION", "~Parameter ---", "~p", "~parameter information block", "~pARAM"],
-    "O": ["~O", "~Other", "~OTHER INFORMATION", "~Other ----", "~o", "~other information", "~oTHER"],
+    "O": ["~O", "~Other", "~OTHER INFORMATION", "~Other ----", "~o", "~other information", "~oTHER", "~Oth", "~Others", "~O1 remarks", "~OTH INFO"],
     "A": ["~A", "~ASCII", "~ASCII LOG DATA", "~A  DEPT  GR  NPHI", "~Ascii -----", "~a", "~ascii log data", "~aSCII"],
     "X": ["~Tops", "~TOPS SECTION", "~Z", "~extra special information", "~Remarks", "~SPECIAL INFORMATION", "~tops",
           "~remarks block", "~Formation Tops ---", "~q", "~Drilling", "~TOPS_DATA", "~Mud_data"],
